@@ -1,7 +1,8 @@
 (* C08 -- the general theorems instantiated with the routing table regenerated from the source
    (Gen/C08Table.v).  [gen_cfg_ok] is the obligation the generated table must meet: every request
    kind of the property's domain is registered by a protocol layer with both callbacks, no
-   other layer reacts to its replies, and processIqRegistry consumes only result/error. *)
+   other layer reacts to its replies, processIqRegistry consumes only result/error and removes
+   the entry BEFORE dispatching the callback (both levels). *)
 From YV Require Import Common.Tac C08.C08Model C08.C08Proofs C08.C08Ping Gen.C08Table.
 
 Lemma gen_cfg_ok : cfg_ok gen_cfg = true.
@@ -14,9 +15,17 @@ Theorem gen_app_exactly_once_thm : forall pre k hs he post,
   in_domain k = true ->
   let i := next (final gen_cfg init pre) in
   shaped i (shape_of k) post ->
-  app_cbs i (events gen_cfg init (pre ++ AppRequest k hs he :: post)) =
+  app_cbs i (events gen_cfg init (pre ++ AppRequest k hs he no_retry :: post)) =
   expected hs he (first_reply i post) (mkreq i (OApp k)).
 Proof. exact (app_exactly_once_thm gen_cfg gen_cfg_ok). Qed.
+
+Theorem gen_app_exactly_once_retry_thm : forall pre k hs he rt post,
+  in_domain k = true ->
+  let i := next (final gen_cfg init pre) in
+  shaped i (shape_of k) post ->
+  app_cbs i (events gen_cfg init (pre ++ AppRequest k hs he rt :: post)) =
+  expected_seq i hs he (mkreq i (OApp k)) (Some rt) post.
+Proof. exact (app_exactly_once_retry_thm gen_cfg gen_cfg_ok). Qed.
 
 Theorem gen_lib_exactly_once_thm : forall pre lk post, lk <> LKPing ->
   let i := next (final gen_cfg init pre) in
